@@ -68,3 +68,19 @@ func (c *Cache) UnmarshalOrdered(o any) error {
 
 	return nil
 }
+
+func (c *Cache) interpolate(tf stringTransformer) error {
+	if c == nil {
+		return nil
+	}
+	if err := interpolateString(tf, &c.Name); err != nil {
+		return err
+	}
+	if err := interpolateSlice(tf, c.Paths); err != nil {
+		return err
+	}
+	if err := interpolateString(tf, &c.Size); err != nil {
+		return err
+	}
+	return interpolateMap(tf, c.RemainingFields)
+}
